@@ -139,6 +139,32 @@ def flat_docs(rng, n):
     return docs
 
 
+def spanfirst_docs(rng, n):
+    """b (always once) early in documents that hold ab several times further on; b or ab alone; ab only late"""
+    docs = {}
+    for i in range(n):
+        kind = rng.choice(["qualifier", "qualifier", "light-b", "light-ab", "late"])
+        if kind == "qualifier":
+            body = [[1]] * rng.randrange(0, 4) + [[2]] + [[1, 2]] * rng.randrange(2, 5)
+        elif kind == "light-b":
+            body = [[2]]
+        elif kind == "light-ab":
+            body = [[1, 2]]
+        else:
+            body = [[1]] * 5 + [[1, 2]] * 3
+        docs["k%02d" % i] = {"t": {"body": body, "title": []}, "n": {}, "b4": 4}
+    return docs
+
+
+def spanfirst_union_query(rng):
+    """SpanFirst over a union of a rare, light word and a frequent, heavy one (a document may qualify through the
+    position of the one and score through the other)"""
+    t = lambda c: {"op": "term", "f": "body", "t": c, "b4": 4}
+    kids = [t([2]), t([1, 2])] if rng.random() < 0.6 else [t([1]), t([2]), t([1, 2])][:rng.choice([2, 3])]
+    rng.shuffle(kids)
+    return {"op": "spanfirst", "q": {"op": "or", "kids": kids, "b4": 4}, "limit": rng.choice([0, 1, 2, 3, 3, 4])}
+
+
 def coord_query(rng):
     """Or with a coordination bonus over clauses weighted far below 1"""
     t = lambda c: {"op": "term", "f": "body", "t": [c], "b4": 1}
@@ -288,6 +314,13 @@ def check(run):
                                    qgen=coord_query, plangen=stepped_plan,
                                    blocklimits=(1, 2, 3, 4), sweep=True, weighting=("Frequency", _sc.Frequency()))
     c11.judge_traces(run, "C12", trs, meta, "c12-coord-sweep")
+    c11.NOTIMPL.clear()
+    # ... and SpanFirst over a union (spans of one clause, score of another): every threshold, also as replace()
+    trs, meta, cases = c11.collect(run, rng, 4 if quick else 30, 6 if quick else 10, "exact", thresholds, quality=True,
+                                   ndocs=(8, 24), docgen=lambda r, n: (spanfirst_docs if r.random() < 0.8 else span_docs)(r, n),
+                                   qgen=spanfirst_union_query, plangen=stepped_plan,
+                                   blocklimits=(1, 2, 3, 4), scored_only=False, sweep=True)
+    c11.judge_traces(run, "C12", trs, meta, "c12-spanfirst-sweep")
     c11.NOTIMPL.clear()
     # ... and on lists where every document holds all three terms of a conjunction (nested intersections)
     trs, meta, cases = c11.collect(run, rng, 4 if quick else 30, 8 if quick else 12, "exact", thresholds, quality=True,
